@@ -43,8 +43,10 @@ def _set(xs):
 
 
 def _cfg(wd, name, maxplace, exportmin, dist, first, more, sim, items=False, skel=False):
+    # random many-gap layouts need skeletons with enough gaps: the two degenerate ones are covered exhaustively by BFS
+    skels = [s for s in SKELS if s not in ("void", "syn")] if sim else SKELS
     with open(os.path.join(wd, name), "w") as fh:
-        fh.write(CFG % dict(skels=_set(SKELS), maxplace=maxplace, exportmin=exportmin, dist=dist, first=_set(first),
+        fh.write(CFG % dict(skels=_set(skels), maxplace=maxplace, exportmin=exportmin, dist=dist, first=_set(first),
                             more=_set(more), sim="TRUE" if sim else "FALSE", items="TRUE" if items else "FALSE",
                             skel="TRUE" if skel else "FALSE", lightskels=_set(LIGHT_SKELS), lightkinds=_set(LIGHT_KINDS)))
     return name
@@ -129,8 +131,8 @@ def _drive(binary, skels, cases, props, verdict, stats, classes, jobs=None):
 def _selftest(binary, skels, wd, props):
     """binding: the driver must notice when the expectation is not what the specification says (one placement's
     trivia kind swapped in the expectation only)"""
-    sk = vf.jsonl_read(skels)[0]
-    gap = 4 if len(sk["toks"]) > 4 else 1
+    sk = max(vf.jsonl_read(skels), key=lambda s: len(s["toks"]))
+    gap = 4
     case = {"t": "lay", "skel": sk["skel"], "pl": [[gap, "blank"]],
             "feat": ["%s@%s(%s)=blank" % (sk["cats"]["blank"], sk["zones"][gap], sk["classes"][gap])],
             "exp_pl": [[gap, "lf3"]]}
